@@ -55,7 +55,7 @@ func (o concOp) model(cf ccfg) string {
 }
 
 type concRun struct {
-	picks []int
+	picks   []int
 	starved string
 	events  []string   // tid:kind:conn:hex in order
 	rets    [][]string // per worker
